@@ -15,7 +15,8 @@ A draw outside the library's contract gives the explicit outcome `badDraw`, so n
 is true merely because the model was totalised.
 
 The model mirrors what the code *does*:
-  * `random_number` passes `(min, max + 1, step)` to `randrange`, whose lattice size `n` is
+  * `random_number` converts string arguments with `int(…)` (6be3bcb, D54) and passes
+    `(min, max + 1, step)` to `randrange`, whose lattice size `n` is
     computed with CPython's own formula (also for negative steps);
   * `choice` returns the written probability as it is (also `0`); `when` only when no
     probability was given (repaired by cfed176; before: `probability or when`, D09);
@@ -91,26 +92,82 @@ inductive ArgMode where
   | formulaV2    -- `min: ${{…}}` in the default dialect: rendered before the call
   deriving Repr, DecidableEq
 
-/-- The Python object the function sees for an argument: an `int`, or (`none`) a `str` —
-    `look_for_number` leaves `"0"` and every negative number a string. -/
-def argSeen (mode : ArgMode) (x : Int) : Option Int :=
+/-- The Python object `random_number` receives for an argument. -/
+inductive PyArg where
+  | int (i : Int)
+  | str (s : String)
+  deriving Repr, DecidableEq
+
+/-- The object seen for the written integer `x`: in the default dialect `look_for_number` leaves
+    `"0"` and every negative number a string. -/
+def argSeen (mode : ArgMode) (x : Int) : PyArg :=
   match mode with
-  | .native => some x
+  | .native => .int x
   | .formulaV2 =>
     match renderV2 x with
-    | .ok (.int i) => some i
-    | _ => none
+    | .ok (.int i) => .int i
+    | .ok (.str t) => .str t
+    | _ => .str (L2.intToStr x)     -- unreachable (`Props.C11.render_v2_identity`)
+
+/-- What `random_number` does with its arguments before calling `randrange`. -/
+inductive ArgConv where
+  | asIs        -- nothing (before 6be3bcb): a `str` makes `max + 1` / `randrange` raise TypeError
+  | strToInt    -- `int(arg) if isinstance(arg, str) else arg` (6be3bcb)
+  deriving Repr, DecidableEq
+
+/-- The conversion found in the source (`Gen.BoundedFuncs.rnArgConversion` is bridged to it). -/
+def codeArgConv : ArgConv := .strToInt
+
+def argConvOfString (s : String) : Option ArgConv :=
+  if s = "" then some .asIs
+  else if s = "min, max, step = (int(arg) if isinstance(arg, str) else arg for arg in (min, max, step))" then
+    some .strToInt
+  else none
+
+inductive ArgErr where
+  | typeError     -- a `str` reached `max + 1` / `randrange`
+  | valueError    -- `int("abc")`: invalid literal
+  deriving Repr, DecidableEq
+
+/-- Python `int(s)` on the modelled fragment (optional `-`, decimal digits). -/
+def coerceArg (conv : ArgConv) : PyArg → Except ArgErr Int
+  | .int i => .ok i
+  | .str s =>
+    match conv with
+    | .asIs => .error .typeError
+    | .strToInt =>
+      match s.toInt? with
+      | some i => .ok i
+      | none => .error .valueError
 
 inductive RNOut where
   | typeError          -- a `str` argument: `max + 1` / `randrange` raises TypeError
+  | valueError         -- a non-numeric `str` argument: `int(arg)` raises ValueError
   | out (o : RROut)
   deriving Repr, DecidableEq
 
-/-- `random_number` as a recipe calls it. -/
+/-- `random_number` on the Python objects it receives (the generator expression converts `min`,
+    `max`, `step` in this order; the first failure is raised). -/
+def randomNumberObj (conv : ArgConv) (a b c : PyArg) (k : Nat) : RNOut :=
+  match coerceArg conv a with
+  | .error .typeError => .typeError
+  | .error .valueError => .valueError
+  | .ok mn =>
+    match coerceArg conv b with
+    | .error .typeError => .typeError
+    | .error .valueError => .valueError
+    | .ok mx =>
+      match coerceArg conv c with
+      | .error .typeError => .typeError
+      | .error .valueError => .valueError
+      | .ok st => .out (randomNumber mn mx st k)
+
+/-- `random_number` as a recipe calls it with the written integers `min`, `max`, `step`. -/
+def randomNumberViaWith (conv : ArgConv) (mode : ArgMode) (min max step : Int) (k : Nat) : RNOut :=
+  randomNumberObj conv (argSeen mode min) (argSeen mode max) (argSeen mode step) k
+
 def randomNumberVia (mode : ArgMode) (min max step : Int) (k : Nat) : RNOut :=
-  match argSeen mode min, argSeen mode max, argSeen mode step with
-  | some a, some b, some c => .out (randomNumber a b c k)
-  | _, _, _ => .typeError
+  randomNumberViaWith codeArgConv mode min max step k
 
 /-! ### `random_choice` -/
 
